@@ -19,8 +19,10 @@ import time
 from concurrent.futures import ThreadPoolExecutor
 from pathlib import Path
 
-VERIF = Path("/verif")
-REPO = Path("/repo")
+# VERIF_ROOT / VERIF_REPO: used only to run the checks on a scratch copy (seeded-change matrix); the
+# registered commands leave them unset
+VERIF = Path(os.environ.get("VERIF_ROOT") or "/verif")
+REPO = Path(os.environ.get("VERIF_REPO") or "/repo")
 COQ = VERIF / "coq"
 WORK = VERIF / "work"
 EVID = VERIF / "evidence"
@@ -322,7 +324,7 @@ class Check:
         path = REPLAYS / f"{self.pid}_{self.tier}_{k}.json"
         replay = dict(replay)
         replay.update(property=self.pid, reason=reason, what=what, seed=self.seed, tier=self.tier,
-                      replay_cmd=f"/verif/bin/replay {path}")
+                      replay_cmd=f"{VERIF}/bin/replay {path}")
         path.write_text(json.dumps(replay, indent=1, default=str))
         self.violations.append(dict(reason=reason, what=what, path=str(path), no_input=no_input))
 
